@@ -32,6 +32,102 @@ package gocql
 //@   ensures soft_panic() == (old(len(f.buf)) < 2)
 //@   ensures !soft_panic() ==> n == be16(old(f.buf), 0) && f.buf == old(f.buf[2:])
 
+//@ func (f *framer) readString
+//@   props C04 C05
+//@   modifies f.buf
+//@   ensures soft_panic() == (old(len(f.buf)) < 2 || old(len(f.buf))-2 < int(be16(old(f.buf), 0)))
+//@   ensures !soft_panic() ==> same(s, string(old(f.buf[2:2+int(be16(f.buf, 0))]))) && f.buf == old(f.buf[2+int(be16(f.buf, 0)):])
+
+//@ func (f *framer) readLongString
+//@   props C04 C05
+//@   modifies f.buf
+//@   ensures soft_panic() == (old(len(f.buf)) < 4 || int(int32(be32(old(f.buf), 0))) < 0 || old(len(f.buf))-4 < int(int32(be32(old(f.buf), 0))))
+//@   ensures !soft_panic() ==> same(s, string(old(f.buf[4:4+int(int32(be32(f.buf, 0)))]))) && f.buf == old(f.buf[4+int(int32(be32(f.buf, 0))):])
+
+//@ func (f *framer) readUUID
+//@   props C04 C05
+//@   modifies f.buf
+//@   ensures soft_panic() == (old(len(f.buf)) < 16)
+//@   ensures !soft_panic() ==> result != nil && fresh(result) && f.buf == old(f.buf[16:]) && all(i, 0, 16, (*result)[i] == old(f.buf[i]))
+
+//@ func (f *framer) readBytesInternal
+//@   props C04 C05
+//@   modifies f.buf
+//@   ensures soft_panic() == (old(len(f.buf)) < 4)
+//@   ensures !soft_panic() && int(int32(be32(old(f.buf), 0))) < 0 ==> result0 == nil && result1 == nil && f.buf == old(f.buf[4:])
+//@   ensures !soft_panic() && int(int32(be32(old(f.buf), 0))) >= 0 && old(len(f.buf))-4 < int(int32(be32(old(f.buf), 0))) ==> result1 != nil && f.buf == old(f.buf[4:])
+//@   ensures !soft_panic() && int(int32(be32(old(f.buf), 0))) >= 0 && old(len(f.buf))-4 >= int(int32(be32(old(f.buf), 0))) ==> result1 == nil && result0 == old(f.buf[4:4+int(int32(be32(f.buf, 0)))]) && f.buf == old(f.buf[4+int(int32(be32(f.buf, 0))):])
+
+//@ func (f *framer) readBytes
+//@   props C04 C05
+//@   modifies f.buf
+//@   ensures soft_panic() == (old(len(f.buf)) < 4 || (int(int32(be32(old(f.buf), 0))) >= 0 && old(len(f.buf))-4 < int(int32(be32(old(f.buf), 0)))))
+//@   ensures !soft_panic() && int(int32(be32(old(f.buf), 0))) < 0 ==> result == nil && f.buf == old(f.buf[4:])
+//@   ensures !soft_panic() && int(int32(be32(old(f.buf), 0))) >= 0 ==> result == old(f.buf[4:4+int(int32(be32(f.buf, 0)))]) && f.buf == old(f.buf[4+int(int32(be32(f.buf, 0))):])
+
+//@ func (f *framer) readShortBytes
+//@   props C04 C05
+//@   modifies f.buf
+//@   ensures soft_panic() == (old(len(f.buf)) < 2 || old(len(f.buf))-2 < int(be16(old(f.buf), 0)))
+//@   ensures !soft_panic() ==> result == old(f.buf[2:2+int(be16(f.buf, 0))]) && f.buf == old(f.buf[2+int(be16(f.buf, 0)):])
+
+//@ func (f *framer) readConsistency
+//@   props C04 C05
+//@   modifies f.buf
+//@   ensures soft_panic() == (old(len(f.buf)) < 2)
+//@   ensures !soft_panic() ==> result == Consistency(be16(old(f.buf), 0)) && f.buf == old(f.buf[2:])
+
+// An [inet] address: one length byte n in {4,16}, then n address bytes.
+//@ func (f *framer) readInetAdressOnly
+//@   props C04 C05
+//@   modifies f.buf
+//@   ensures soft_panic() == (old(len(f.buf)) < 1 || !(old(f.buf[0]) == 4 || old(f.buf[0]) == 16) || old(len(f.buf))-1 < int(old(f.buf[0])))
+//@   ensures !soft_panic() ==> len(result) == int(old(f.buf[0])) && f.buf == old(f.buf[1+int(f.buf[0]):])
+//@   ensures !soft_panic() ==> forall(k, 0 <= k && k < len(result), result[k] == old(f.buf[1+k]))
+
+//@ func (f *framer) readInet
+//@   props C04 C05
+//@   modifies f.buf
+//@   ensures soft_panic() == (old(len(f.buf)) < 1 || !(old(f.buf[0]) == 4 || old(f.buf[0]) == 16) || old(len(f.buf))-1 < int(old(f.buf[0]))+4)
+//@   ensures !soft_panic() ==> len(result0) == int(old(f.buf[0])) && result1 == int(int32(be32(old(f.buf), 1+int(old(f.buf[0]))))) && f.buf == old(f.buf[5+int(f.buf[0]):])
+
+// Lists and maps: safety, element count and consumption direction (content of the
+// elements is decoded by the primitive contracts above).
+//@ func (f *framer) readStringList
+//@   props C04 C05
+//@   modifies f.buf
+//@   may_soft_panic
+//@   ensures !soft_panic() ==> len(result) == int(be16(old(f.buf), 0)) && old(len(f.buf)) >= 2
+//@   ensures !soft_panic() ==> len(f.buf) <= old(len(f.buf)) - 2 && base(f.buf) == old(base(f.buf))
+//@   loop 0: invariant 0 <= i && i <= int(size) && len(l) == int(size) && len(f.buf) <= old(len(f.buf)) - 2 && base(f.buf) == old(base(f.buf))
+
+//@ func (f *framer) readBytesMap
+//@   props C04 C05
+//@   modifies f.buf
+//@   may_soft_panic
+//@   ensures !soft_panic() ==> result != nil && old(len(f.buf)) >= 2 && len(f.buf) <= old(len(f.buf)) - 2 && base(f.buf) == old(base(f.buf))
+//@   loop 0: invariant 0 <= i && i <= int(size) && m != nil && len(f.buf) <= old(len(f.buf)) - 2 && base(f.buf) == old(base(f.buf))
+
+//@ func (f *framer) readStringMultiMap
+//@   props C04 C05
+//@   modifies f.buf
+//@   may_soft_panic
+//@   ensures !soft_panic() ==> result != nil && old(len(f.buf)) >= 2 && len(f.buf) <= old(len(f.buf)) - 2 && base(f.buf) == old(base(f.buf))
+//@   loop 0: invariant 0 <= i && i <= int(size) && m != nil && len(f.buf) <= old(len(f.buf)) - 2 && base(f.buf) == old(base(f.buf))
+
+//@ func (f *framer) readErrorMap
+//@   props C04 C05
+//@   modifies f.buf
+//@   may_soft_panic
+//@   ensures !soft_panic() ==> errMap != nil && len(f.buf) <= old(len(f.buf)) - 4
+//@   loop 0: invariant 0 <= i && errMap != nil && len(f.buf) <= old(len(f.buf)) - 4
+
+//@ func (f *framer) readTrace
+//@   props C04 C05
+//@   modifies f.buf, f.traceID
+//@   ensures soft_panic() == (old(len(f.buf)) < 16)
+//@   ensures !soft_panic() ==> len(f.traceID) == 16 && f.buf == old(f.buf[16:])
+
 // ---------------------------------------------------------------------------
 // uuid.go (RFC 4122; oracle in /verif/spec/bv.smt2 blocks uuid, hex)
 // ---------------------------------------------------------------------------
